@@ -169,16 +169,25 @@ def run(ctx):
         "status_transitions_seen": len(trans),
         "most_frequent_status_transitions": ["%s->%s:%d" % (a, b, n) for (a, b), n in trans.most_common(12)],
         "rule": "three polyhedra per history (C or NNC, dimension 0-3, results up to 4-5), each built in one of 7 lazy states; 4-10 "
-                "public calls drawn from 27 (is_empty, constraints, generators, minimized_*, contains, ==, relation_with(g), bounds, "
-                "max/min, add_constraint, refine_with_constraint, add_generator, affine_(pre)image, generalized_affine_image, "
+                "public calls drawn from 30 (is_empty, constraints, generators, minimized_*, contains, ==, relation_with(g), bounds, "
+                "max/min, add_constraint, refine_with_constraint, add_generator, affine_(pre)image, generalized_affine_image (<= = >=), "
                 "add_space_dimensions_*, remove_(higher_)space_dimensions, unconstrain, topological_closure_assign, intersection, "
-                "poly_hull, time_elapse, concatenate, copy); identical = dimension, 9 status flags, rows IN ORDER with "
+                "poly_hull, time_elapse, concatenate, copy, expand_space_dimension, fold_space_dimensions, map_space_dimensions "
+                "(permutations and empty codomain)); a receiver already marked empty is taken less often; identical = dimension, 9 status flags, rows IN ORDER with "
                 "index_first_pending and sorted flag of every up-to-date description, sat_c / sat_g when flagged up to date, "
                 "observer answer, after every step, the model never re-seeded before the first difference; status word = "
                 "E CU GU CM GM SC SG CP GP",
     }
     ctx.assumptions += [
         "full Polyhedron model: stale members (a system or matrix whose status flag is off) are not compared; the MIP_Problem "
-        "call inside strongly_minimize_constraints is replaced by K1's supB on the same system; exceptions end a history",
+        "call inside strongly_minimize_constraints is replaced by K1's supB on the same system; exceptions end a history; NOT in "
+        "the model: the strict relation symbols of generalized_affine_image, bounded_affine_image, poly_difference_assign, "
+        "simplify_using_context_assign, the system-valued add_constraints / add_generators / refine_with_constraints, "
+        "relation_with(Constraint), the general (non-permutation) case of map_space_dimensions",
+        "full Polyhedron model, theorems (Props/C01Full.lean): the conversion contract ConvContract is a hypothesis (its clauses "
+        "proved for the engine model are listed there); full_refines_reference / full_history_correct cover is_empty, copy, "
+        "add_constraint, intersection_assign, unconstrain and the non-invertible affine_(pre)image on a pool of objects; the other "
+        "operators have their own end-to-end theorems (C02.*_full), those named _partial assume one or two fields of the invariant "
+        "of the result (EnginePair / LowLevel after an in-place rewrite of a minimized pair)",
     ]
     return broken
